@@ -187,7 +187,8 @@ macro_rules! real_lane {
             ends[l] = if r.chance(0.7) { f64::INFINITY } else { 1e200 };
             m.count("open_ended_last_piece");
         }
-        let coeffs: Vec<Vec<f64>> = (0..ends.len()).map(|_| (0..<$t as Nums>::LEN).map(|_| match r.below(4) { 0 => r.small_int(5), 1 => 0.0, _ => r.mixed(2.0) }).collect()).collect();
+        let mut coeffs: Vec<Vec<f64>> = (0..ends.len()).map(|_| (0..<$t as Nums>::LEN).map(|_| match r.below(4) { 0 => r.small_int(5), 1 => 0.0, _ => r.mixed(2.0) }).collect()).collect();
+        repeat_some_pieces(r, &mut coeffs);
         let pw: Piecewise<$t> = pw_from(&ends, &coeffs);
         let inside = r.chance(0.75);
         let kx = if !(ends[0].abs() < 1e6) {
